@@ -750,10 +750,15 @@ func (m *mon) colex(n, k int) {
 			ok = it.Next()
 			if ok {
 				val = append([]int(nil), it.Value()...)
+				// the caller extends the subset it was shown by one element (append never writes into the k elements
+				// the documentation tells it to leave alone): smaller and larger than everything in turn
+				ext := append(it.Value(), []int{0, n + 3, n, -1}[idx%4])
+				_ = ext
 			}
 		})
 		c.Eval(1)
-		detail := map[string]interface{}{"api": "CombinationsColex", "n": n, "k": k, "position": idx}
+		c.Obs("colex:values_extended_by_the_caller_with_append", 1)
+		detail := map[string]interface{}{"api": "CombinationsColex", "n": n, "k": k, "position": idx, "history": "after every Next the caller did append(it.Value(), x) with x = 0, n+3, n, -1 in turn"}
 		if pi != nil {
 			c.Violation("CombinationsColex|panic|"+args, detail, pi.String(), fmt.Sprint(want))
 			return
@@ -774,6 +779,18 @@ func (m *mon) colex(n, k int) {
 		if !m.rank(val, false) {
 			return
 		}
+	}
+	// ... and the walk ends where it should
+	var more bool
+	var extra []int
+	if pi := c.Call("CombinationsColex.Next|"+args+",after-the-last", func() {
+		more = it.Next()
+		if more {
+			extra = append([]int(nil), it.Value()...)
+		}
+	}); pi == nil && more && len(subs) > 0 {
+		c.Violation("colex-order|value-after-the-last|"+args, detail, fmt.Sprintf("Next() = true with %v after all %d subsets", extra, len(subs)), "false")
+		return
 	}
 	c.NTDistinct(1)
 }
